@@ -609,7 +609,7 @@ def main() -> None:  # noqa: C901
                              (f"; regions set aside as known findings: {sorted(set(aside))}" if aside else ""))
 
     phases: Dict[str, float] = {"symbolic": round(time.time() - chk.t0, 1)}
-    if not only:
+    if not only or only == "bounded":          # VERIF_ONLY=bounded: only the native tiers (no '::bounded::' program exists)
         for name, fn_ in (("sql-conformance", lambda: L.conformance(chk, programs, rnd, pool)),
                           ("python-conformance", lambda: python_conformance(chk, cellmap, rnd, pool)),
                           ("cell-level", lambda: cell_level(chk, cellmap, programs, pool, known)),
